@@ -16,7 +16,7 @@ import (
 func init() { register("C11", true, checkC11) }
 
 func checkC11(p *Prog, r *Report) {
-	r.Explain("OWN: the buffered reader of isobmff.Reader is touched only by Reader.peek, Reader.discard, box.Read and the constructor/Close; Reader.peek/discard are called only from the box methods that check the box (box.Peek, box.Discard) and from readBox; box.remain is stored only by the box methods and the three places that create a box — so no consumption can bypass the accounting. GUARD: box.Peek and box.Discard delegate (to the parent or the reader) only under remain >= n, through the parent when there is one; box.Read truncates its request to the minimum of remain over the whole parent chain. ACCT: box.Read charges exactly the count the underlying Read returned, to the box, its parents and Reader.offset; Reader.discard adds the returned count to Reader.offset. FRAME: every store to box.size (the 32-bit field or the 64-bit largesize) is followed on every continuing path by remain = int(that size) on the same box before the box is used or returned. BOXCOPY: no whole-struct load of a box through a pointer that is not the function's own local (a by-value copy of somebody else's box would be charged instead of the original), and box.outer is never the address of a by-value parameter's local copy. CLOSE: every iteration of a child-box loop closes the child before the next one is read, and ReadMetadata and ReadFTYP close (or hands to a closing handler) the top-level box on every path that can return a nil error — so the reader stands at the next box. NONNEG: every count handed to (*box).Discard or (*Reader).discard is proved non-negative — a negative one passes the remain >= n test and enlarges the box and all its parents. CBCLOSE: in the handler that invokes a callback (ExifReader, XMPReader, PreviewImageReader), every path from that call to a return — failing or not — passes (*box).close(), so a callback that stops reading early never leaves the reader inside a payload. CMT: the CR3 dispatch passes IFD0, ExifIFD, MakerNote, GPSIFD for CMT1..CMT4 (spec table). HANDOFF: the reader given to the Exif, XMP and preview callbacks is the box itself (whose Read is bounded by GUARD), never the raw buffered reader. Exact byte positions after arbitrary box trees are run-time sums and are not decided.")
+	r.Explain("OWN: the buffered reader of isobmff.Reader is touched only by Reader.peek, Reader.discard, box.Read and the constructor/Close; Reader.peek/discard are called only from the box methods that check the box (box.Peek, box.Discard) and from readBox; box.remain is stored only by the box methods and the three places that create a box — so no consumption can bypass the accounting. GUARD: box.Peek and box.Discard delegate (to the parent or the reader) only under remain >= n, through the parent when there is one; box.Read truncates its request to the minimum of remain over the whole parent chain. ACCT: box.Read charges exactly the count the underlying Read returned, to the box, its parents and Reader.offset; Reader.discard adds the returned count to Reader.offset. FRAME: every store to box.size (the 32-bit field or the 64-bit largesize) is followed on every continuing path by remain = int(that size) on the same box before the box is used or returned. BOXCOPY: no whole-struct load of a box through a pointer that is not the function's own local (a by-value copy of somebody else's box would be charged instead of the original), and box.outer is never the address of a by-value parameter's local copy. CLOSE: every iteration of a child-box loop closes the child before the next one is read, and ReadMetadata and ReadFTYP close (or hands to a closing handler) the top-level box on every path that can return a nil error — so the reader stands at the next box. ADJ: (*box).adjust hands its count to b.outer.adjust under b.outer != nil and nothing else, and writes no other box's remain directly — what a Read took is charged all the way out. NONNEG: every count handed to (*box).Discard or (*Reader).discard is proved non-negative — a negative one passes the remain >= n test and enlarges the box and all its parents. CBCLOSE: in the handler that invokes a callback (ExifReader, XMPReader, PreviewImageReader), every path from that call to a return — failing or not — passes (*box).close(), so a callback that stops reading early never leaves the reader inside a payload. CMT: the CR3 dispatch passes IFD0, ExifIFD, MakerNote, GPSIFD for CMT1..CMT4 (spec table). HANDOFF: the reader given to the Exif, XMP and preview callbacks is the box itself (whose Read is bounded by GUARD), never the raw buffered reader. Exact byte positions after arbitrary box trees are run-time sums and are not decided.")
 	r.Trusted("bufio.Reader Peek/Discard/Read semantics", "CR3 layout: CMT1 root, CMT2 Exif, CMT3 maker note, CMT4 GPS (lclevy/canon_cr3)")
 	sp := p.SSAPkg("isobmff")
 	if sp == nil {
@@ -34,6 +34,8 @@ func checkC11(p *Prog, r *Report) {
 	ruleOuterLink(p, r, sp)
 	ruleCallbackClose(p, r, sp)
 	ruleDiscardNonNeg(p, r, sp)
+	ruleAdjustChain(p, r)
+	r.Floor("ADJ", 1)
 	r.Floor("NONNEG", 8)
 	r.Floor("CBCLOSE", 4)
 	r.Floor("OWN", 6)
@@ -777,9 +779,7 @@ func ruleCloseBoxes(p *Prog, r *Report, sp *ssa.Package) {
 			}
 			direct := map[*ssa.BasicBlock]bool{}
 			eachCall(f, func(site ssa.CallInstruction) {
-				if _, isDefer := site.(*ssa.Defer); isDefer {
-					return
-				}
+				// a deferred close counts from the point where it is registered: it runs at every exit reached from there
 				if isBoxClose(site, boxAlloc) {
 					direct[site.Block()] = true
 				}
